@@ -604,6 +604,13 @@ func (w *World) run(steps int) {
 					ts, tick = w.next()+w.set.Interval, "skipped"
 				case 2:
 					ts, tick = w.now+1+int64(r.U64n(uint64(w.set.Interval-1))), "unaligned"
+				case 3:
+					// a tick dated before the tip (the engine never delivers one; AddBlock refuses it).
+					// Only with an empty pool: in that refusal branch the Go pool slice is left in a
+					// state (shifted backing array) that the model does not describe.
+					if len(w.host.Pool.Transactions()) == 0 {
+						ts, tick = w.now-w.set.Interval, "backwards"
+					}
 				}
 			}
 			if tick == "aligned" {
